@@ -241,6 +241,8 @@ type FuncCtx struct {
 	curEnv        *Env
 	pendingSets   []int
 	wfSeen        map[string]bool
+	schemaUses    int
+	ifaceCons     []*Contract
 	siteResults   map[string]TV
 	callSites     map[string]int
 }
@@ -721,6 +723,7 @@ func (e *Engine) verifyFunction(fn *ssa.Function, con *Contract) (q *Query, fc *
 			}
 		}
 		fc.paramTV[name] = tv
+		fc.paramTV[name+"0"] = tv // entry value (parameters are assignable in Go)
 		if name != p.Name() {
 			fc.paramTV[p.Name()] = tv
 		}
@@ -749,6 +752,27 @@ func (e *Engine) verifyFunction(fn *ssa.Function, con *Contract) (q *Query, fc *
 				return nil, nil, err
 			}
 			q.assume(t)
+		}
+		for i, c := range con.Unfold {
+			var t string
+			if err := catchTr(fmt.Sprintf("%s unfold %d", con.Key, i), func() { t = env.trBool(c.E) }); err != nil {
+				return nil, nil, err
+			}
+			q.assume(t)
+			fc.schemaUses++
+		}
+		// behavioural subtyping: a method implementing a contracted interface method
+		// may assume only that contract's precondition (self := boxed(receiver))
+		for _, ic := range e.ifaceContractsFor(fn) {
+			ienv := fc.ifaceEnv(ic, fc.s0, nil)
+			for i, c := range ic.Requires {
+				var t string
+				if err := catchTr(fmt.Sprintf("%s requires %d (as implemented by %s)", ic.Key, i, con.Key), func() { t = ienv.trBool(c.E) }); err != nil {
+					return nil, nil, err
+				}
+				q.assume(t)
+			}
+			fc.ifaceCons = append(fc.ifaceCons, ic)
 		}
 		// vacuity guard: the precondition (with the axioms) must be satisfiable
 		o := &Obligation{Fn: fc.fnName, Name: "cover/pre", Kind: "cover", Guard: "true", Goal: "false", Desc: "precondition satisfiable", Cover: true, n: len(q.items), Pos: fc.posOfFn()}
@@ -882,6 +906,41 @@ func (fc *FuncCtx) loopNames(li *loopInfo, phiVal func(*ssa.Phi) TV) map[string]
 		}
 	}
 	return vars
+}
+
+// ifaceEnv: environment for an interface contract as seen by an implementing
+// method: self is the boxed receiver, parameters/results by the contract's names.
+func (fc *FuncCtx) ifaceEnv(ic *Contract, st *State, res []TV) *Env {
+	vars := map[string]TV{}
+	fn := fc.fn
+	recv := fc.val[fn.Params[0]]
+	tid := fc.eng.typeIDTerm(fn.Params[0].Type())
+	payload := recv.T
+	if recv.S != "Int" {
+		payload = fmt.Sprintf("(%s %s)", fc.eng.boxFn(recv.S), recv.T)
+	}
+	self := ic.Recv
+	if self == "" {
+		self = "self"
+	}
+	vars[self] = TV{T: fmt.Sprintf("(mk-iface %s %s)", tid, payload), S: "Iface"}
+	for i, p := range fn.Params[1:] {
+		n := p.Name()
+		if i < len(ic.Params) {
+			n = ic.Params[i]
+		}
+		vars[n] = fc.val[p]
+	}
+	for i, r := range res {
+		if i < len(ic.Results) {
+			vars[ic.Results[i]] = r
+		}
+		vars[fmt.Sprintf("result%d", i)] = r
+	}
+	if len(res) > 0 {
+		vars["result"] = res[0]
+	}
+	return &Env{fc: fc, vars: vars, st: st, old: fc.s0}
 }
 
 // namesAt: the source variables visible just before instruction `at`.
@@ -1065,6 +1124,14 @@ func (fc *FuncCtx) enterLoop(li *loopInfo, b *ssa.BasicBlock, pre *State, reach 
 			panic(trErr(err.Error()))
 		}
 		q.assume(fmt.Sprintf("(=> %s %s)", reach, t))
+	}
+	for i, c := range lc.Unfold {
+		var t string
+		if err := catchTr(fmt.Sprintf("%s %s unfold %d", fc.fnName, label, i), func() { t = env.trBool(c.E) }); err != nil {
+			panic(trErr(err.Error()))
+		}
+		q.assume(t)
+		fc.schemaUses++
 	}
 	for _, f := range frameInv {
 		q.assume(fmt.Sprintf("(=> %s %s)", reach, f(st)))
@@ -1259,6 +1326,14 @@ func (fc *FuncCtx) finish() {
 	fc.curInstr = nil
 	extra := fc.resultNames(con, res)
 	env := fc.envFor(st, extra)
+	for i, c := range con.UnfoldPost {
+		var t string
+		if err := catchTr(fmt.Sprintf("%s unfold-post %d", con.Key, i), func() { t = env.trBool(c.E) }); err != nil {
+			panic(trErr(err.Error()))
+		}
+		q.assume(fmt.Sprintf("(=> %s %s)", exit, t))
+		fc.schemaUses++
+	}
 	for i, c := range con.Ensures {
 		var t string
 		if err := catchTr(fmt.Sprintf("%s ensures %d", con.Key, i), func() { t = env.trBool(c.E) }); err != nil {
@@ -1268,6 +1343,20 @@ func (fc *FuncCtx) finish() {
 		o := fc.oblige("post", clauseLabel(c, i), exit, t, "postcondition: "+c.Src, c.Tags)
 		fc.curEnv = nil
 		o.Pos = fc.posOfFn()
+	}
+	for _, ic := range fc.ifaceCons {
+		ienv := fc.ifaceEnv(ic, st, res)
+		short := ic.Key[strings.LastIndex(ic.Key, "/")+1:]
+		for i, c := range ic.Ensures {
+			var t string
+			if err := catchTr(fmt.Sprintf("%s ensures %d (as implemented by %s)", ic.Key, i, con.Key), func() { t = ienv.trBool(c.E) }); err != nil {
+				panic(trErr(err.Error()))
+			}
+			fc.curEnv = ienv
+			o := fc.oblige("refine/"+short, clauseLabel(c, i), exit, t, "interface contract "+ic.Key+": "+c.Src, c.Tags)
+			fc.curEnv = nil
+			o.Pos = fc.posOfFn()
+		}
 	}
 	if con.HasAssigns {
 		fc.checkFrame(st, exit)
